@@ -74,7 +74,7 @@ def spec_corruption(tier, seed):
     import importlib
 
     for fname, old, new, ename, modname, prop in CORRUPTIONS:
-        sd = os.path.join(core.WORK, "selftest_spec")
+        sd = os.path.join(core.WORK, "selftest_spec.%d" % os.getpid())
         if os.path.isdir(sd):
             shutil.rmtree(sd)
         shutil.copytree(os.path.join(ROOT, "spec"), sd)
